@@ -101,8 +101,8 @@ def _evaluate(lines, names):
         for a in (model, h, parsed):
             if a.startswith("bad-op"):
                 raise core.Infra(f"driver rejected: {l[:200]} -> {a}")
-        opn, rest = l.split(" ", 1)
-        res["tags"][opn] = res["tags"].get(opn, 0) + 1
+        opn, rest = (l.rsplit(" ;; ", 1)[-1] if l.startswith("after ") else l).split(" ", 1)
+        res["tags"]["after-history" if l.startswith("after ") else opn] = res["tags"].get("after-history" if l.startswith("after ") else opn, 0) + 1
         t = Toks(rest)
         if opn == "render_list":
             ks = p_list(t, p_node)
@@ -277,7 +277,9 @@ def run(tier: str) -> int:
     # width / near-name stream (case variants of raw-text names are left out here: html.parser, the independent oracle,
     # folds case and would read <Script> as raw text; C02/C04/C05/C06 render them)
     bl = gen.boundary_lines(ck.rng, leaves=("text", "meta"), near=("miss",), html_attrs=False, cfgs=((0, "\n"), (2, "\r\n")))
-    rest = sp + fl + fnl + rl + bl
+    # process history: a sample of the lines, each evaluated after its twin (the same characters as trusted markup)
+    hl = gen.history_lines(ck.rng, rl + bl + fnl, ck.budget(400, 4000))
+    rest = sp + fl + fnl + rl + bl + hl
     size = 4000 if quick else 12000
     tasks += [("lines", rest[lo:lo + size], names) for lo in range(0, len(rest), size)]
     n_trees = sum(1 for t in gen.trees_upto(bound, LEAVES, TAGS) if t[0] == "tag")
@@ -343,6 +345,9 @@ def run(tier: str) -> int:
 def _py_of(line: str) -> str:
     """a snippet reproducing the case against the public API"""
     try:
+        if line.startswith("after "):
+            parts = line[6:].split(" ;; ")
+            return "; ".join(_py_of(x) for x in parts[:-1]) + ";  # history, then:  " + _py_of(parts[-1])
         opn, rest = line.split(" ", 1)
         t = Toks(rest)
         if opn == "render_list":
@@ -367,6 +372,8 @@ def _py_node(n) -> str:
         return "Tag(" + ", ".join(parts) + ")"
     if n[0] == "text":
         return repr(n[1])
+    if n[0] == "html":
+        return f"HTML({n[1]!r})"
     if n[0] == "meta":
         return "MetadataNode()"
     return repr(n)
